@@ -10,6 +10,7 @@ from framework import fresh_import
 from simcheck import t_bias, check_step_oracle, single_step
 
 PROPS = 'SkoolVerif.Props.C08'
+PROPS_C = 'SkoolVerif.Props.C08C'
 
 
 def paging(chk, pagingtracer):
@@ -230,11 +231,11 @@ def run(chk):
     chk.trusted += ['translator translate/py2lean.py (Python AST subset -> Lean; validated per slot each run)',
                     'translate/cdispatch.py (C dispatch initialisers -> Instr)',
                     'hand model Prelude/Machine.lean Mem128 (pagingtracer.Memory + PagingTracer.write_port) tied by correspondence',
-                    'C handler bodies: differential execution against the generated model only']
+                    'translate/c2lean.py (C handler bodies -> Lean, see C06): Props/C08C.lean lifts ROM/range/clock to runs of the translated C handlers; the C run loops are differential only']
     chk.assumptions += ['range invariant is proved for every closure of both simulators with every well-formed argument tuple '
                         '(ranges_preserved, no closure excluded: translate/gen_range.py PENDING is empty; the closures in its '
                         'MANUAL table are proved by the closure-independent tactic rinv_manual of Proofs/RangeManual.lean)',
-                        'C simulators: ROM/range/paging guards are covered by correspondence and e2e, not by theorem',
+                        'C simulators: ROM/range/clock over runs of the translated C handlers are theorems (Props/C08C.lean, under the C clock bound and, on 128K, an attached tracer); the C paging latch (OUT macro) is covered by the paging programs e2e and C06 correspondence, not by theorem',
                         'skoolutils.Memory (@bank/#BANK) is not modelled']
     simulator, cmiosimulator, pagingtracer = fresh_import('skoolkit.simulator', 'skoolkit.cmiosimulator', 'skoolkit.pagingtracer')
     gen_ok = simgen.regen(chk)
@@ -242,6 +243,13 @@ def run(chk):
     chk.audit(PROPS)
     if chk.thorough and ok:
         chk.leanchecker([PROPS])
+    # the same claims for the C simulators: corollaries (Props/C08C.lean) of C06's c_run_eq_python over the C
+    # handler bodies translated from c/csimulator.c on this run (cgencheck.regen_cgen)
+    import cgencheck
+    cgen_ok = cgencheck.regen_cgen(chk) if gen_ok else False
+    if ok and cgen_ok:
+        chk.lake_build([PROPS_C])
+    chk.audit(PROPS_C)
     import cbuild
     CS, CC = cbuild.build(chk.scratch)
     impls = [('py-plain', simcorr.PySim(simulator.Simulator), 'Sim', False),
